@@ -13,6 +13,8 @@ pub struct Proj<'a> {
     pub prg: &'a TypedProgram,
     pub const_sizes: &'a HashMap<String, usize>,
     pub oom: Vec<String>,
+    /// restore the surface forms `<=`, `>=` and `op=` that the parser rewrites by cloning operands
+    pub resugar: bool,
 }
 
 fn meta(m: &MetaInfo) -> Value {
@@ -41,7 +43,7 @@ pub fn sty(t: &SignedNumType) -> &'static str {
 
 impl<'a> Proj<'a> {
     pub fn new(prg: &'a TypedProgram, const_sizes: &'a HashMap<String, usize>) -> Self {
-        Proj { prg, const_sizes, oom: vec![] }
+        Proj { prg, const_sizes, oom: vec![], resugar: true }
     }
 
     fn num(&mut self, v: i128) -> Value {
@@ -138,8 +140,28 @@ impl<'a> Proj<'a> {
                 let a: Vec<Value> = arms.iter().map(|(p, b)| json!({"p":self.pat(p),"b":self.expr(b)})).collect();
                 json!({"k":"match","e":self.expr(x),"arms":a})
             }
-            ExprEnum::UnaryOp(o, x) => json!({"k":"un","op":match o { UnaryOp::Not => "not", UnaryOp::Neg => "neg" },"e":self.expr(x)}),
-            ExprEnum::Op(o, l, r) => json!({"k":"bin","op":Self::op(o),"l":self.expr(l),"r":self.expr(r)}),
+            ExprEnum::UnaryOp(o, x) => {
+                let xj = self.expr(x);
+                // `a <= b` is written by the parser as `!(a > b)` (and `a >= b` as `!(a < b)`) with the span of the comparison
+                let cmp = xj["op"].as_str().unwrap_or("").to_string();
+                if matches!(o, UnaryOp::Not) && self.resugar && xj["k"] == "bin" && (cmp == "gt" || cmp == "lt") && xj["m"] == m {
+                    json!({"k":"bin","op": if cmp == "gt" { "le" } else { "ge" },"l":xj["l"],"r":xj["r"]})
+                } else {
+                    json!({"k":"un","op":match o { UnaryOp::Not => "not", UnaryOp::Neg => "neg" },"e":xj})
+                }
+            }
+            ExprEnum::Op(o, l, r) => {
+                let (lj, rj) = (self.expr(l), self.expr(r));
+                // the parser writes `a <= b` as `(a < b) | (a == b)` with cloned operands that all carry the span of the
+                // comparison: the surface form is restored, its operands are evaluated once
+                let cmp = lj["op"].as_str().unwrap_or("").to_string();
+                if matches!(o, Op::BitOr) && self.resugar && lj["k"] == "bin" && rj["k"] == "bin" && (cmp == "lt" || cmp == "gt") && rj["op"] == "eq"
+                    && lj["m"] == m && rj["m"] == m && lj["l"] == rj["l"] && lj["r"] == rj["r"] {
+                    json!({"k":"bin","op": if cmp == "lt" { "le" } else { "ge" },"l":lj["l"],"r":lj["r"]})
+                } else {
+                    json!({"k":"bin","op":Self::op(o),"l":lj,"r":rj})
+                }
+            }
             ExprEnum::Block(ss) => { let v: Vec<Value> = ss.iter().map(|s| self.stmt(s)).collect(); json!({"k":"block","ss":v}) }
             ExprEnum::FnCall(f, args) => { let v: Vec<Value> = args.iter().map(|x| self.expr(x)).collect(); json!({"k":"call","f":f,"args":v}) }
             ExprEnum::BuiltInFnCall(BuiltInFnCall::Join { join_ty, has_assoc_data, args }) => {
@@ -196,14 +218,51 @@ impl<'a> Proj<'a> {
                     Accessor::TupleAccess { tuple_ty, index } => json!({"k":"tup","i":index,"cty":self.ty(tuple_ty),"m":meta(am)}),
                     Accessor::StructAccess { struct_ty, field } => json!({"k":"fld","f":field,"cty":self.ty(struct_ty),"m":meta(am)}),
                 }).collect();
-                json!({"k":"assign","n":n,"acc":a,"e":self.expr(e)})
+                let ej = self.expr(e);
+                // `place op= v` is written by the parser as `place = place op v`; the operator node and the cloned place
+                // carry the span of the whole statement (a hand-written `x = x + v` has the span of its right-hand side)
+                let is_place = |x: &Value| -> bool {
+                    let mut cur = x;
+                    let mut depth = 0;
+                    loop {
+                        match cur["k"].as_str().unwrap_or("") {
+                            "var" => return cur["n"] == json!(n) && depth == a.len() && cur["m"][0] == m[0] && cur["m"][1] == m[1],
+                            "idx" => { cur = &cur["a"]; depth += 1; }
+                            "tupacc" | "sacc" => { cur = &cur["e"]; depth += 1; }
+                            _ => return false,
+                        }
+                    }
+                };
+                if self.resugar && ej["k"] == "bin" && ej["m"] == m && !matches!(ej["op"].as_str().unwrap_or(""), "le" | "ge" | "lt" | "gt" | "eq" | "ne" | "land" | "lor") && is_place(&ej["l"]) {
+                    json!({"k":"opassign","n":n,"acc":a,"op":ej["op"],"e":ej["r"],"pty":ej["l"]["ty"]})
+                } else {
+                    json!({"k":"assign","n":n,"acc":a,"e":ej})
+                }
             }
             StmtEnum::ForEachLoop(p, e, body) => { let b: Vec<Value> = body.iter().map(|x| self.stmt(x)).collect(); json!({"k":"for","p":self.pat(p),"e":self.expr(e),"body":b}) }
             StmtEnum::JoinLoop(p, jty, (a, b), body) => {
                 let bd: Vec<Value> = body.iter().map(|x| self.stmt(x)).collect();
                 json!({"k":"forjoin","p":self.pat(p),"jty":self.ty(jty),"a":self.expr(a),"b":self.expr(b),"body":bd})
             }
-            StmtEnum::Expr(e) => json!({"k":"expr","e":self.expr(e)}),
+            StmtEnum::Expr(e) => {
+                let ej = self.expr(e);
+                // `a[i] op= v` with a compound index is written by the parser as `{ let $index0 = i; a[$index0] = a[$index0] op v }`
+                let hidden = |x: &Value| x["k"] == "let" && x["p"]["k"] == "pid" && x["p"]["n"].as_str().map(|n| n.starts_with("$index")).unwrap_or(false);
+                let ss = ej["ss"].as_array().cloned().unwrap_or_default();
+                if self.resugar && ej["k"] == "block" && ss.len() >= 2 && ss[..ss.len() - 1].iter().all(|x| hidden(x)) && ss[ss.len() - 1]["k"] == "opassign" {
+                    let mut op = ss[ss.len() - 1].clone();
+                    let mut acc = op["acc"].as_array().cloned().unwrap_or_default();
+                    for a in acc.iter_mut() {
+                        if a["k"] == "idx" && a["i"]["k"] == "var" {
+                            if let Some(l) = ss[..ss.len() - 1].iter().find(|l| l["p"]["n"] == a["i"]["n"]) { a["i"] = l["e"].clone(); }
+                        }
+                    }
+                    op["acc"] = Value::Array(acc);
+                    op
+                } else {
+                    json!({"k":"expr","e":ej})
+                }
+            }
         };
         v["m"] = m;
         v
